@@ -124,6 +124,10 @@ func (x *Unit) specialCall(st *State, pc *preparedCall) []Term {
 					x.havocComp(st, c)
 				}
 				x.assumeRelies(st, pre)
+				for _, inv := range x.lockInvs(pc.baseT, pc.field) {
+					env := &specEnv{x: x, cur: st, old: pre, names: map[string]Term{"self": *pc.base}, noLocals: true}
+					x.assume(st, env.boolOf(inv.Expr))
+				}
 			}
 			v := "2"
 			if m == "RLock" {
@@ -137,6 +141,12 @@ func (x *Unit) specialCall(st *State, pc *preparedCall) []Term {
 				want = "1"
 			}
 			x.oblige(st, "locknest", x.safetyLabel(recvTypeName(pc.baseT)+"."+pc.field+"."+m), x.concTagsLock(), Eq(cur, T(want, SInt)), "unlock of a lock held in the matching mode", pc.node)
+			if x.mode == "conc" && m == "Unlock" {
+				for _, inv := range x.lockInvs(pc.baseT, pc.field) {
+					env := &specEnv{x: x, cur: st, old: x.entry, names: map[string]Term{"self": *pc.base}, noLocals: true}
+					x.oblige(st, "lockinv", x.safetyLabel(recvTypeName(pc.baseT)+"."+pc.field+"."+inv.Label), x.tagsOrDefault(inv.Tags), env.boolOf(inv.Expr), inv.Src, pc.node)
+				}
+			}
 			x.set(st, lc, Store(x.get(st, lc), *pc.base, T("0", SInt)))
 			x.set(st, "$nlocks", T("(- "+nl.S+" 1)", SInt))
 		default:
@@ -210,13 +220,17 @@ func (x *Unit) specialCall(st *State, pc *preparedCall) []Term {
 		case strings.HasPrefix(op, "Load"):
 			v := rd()
 			v.Sort = SInt
-			return []Term{x.define("aload", v)}
+			r := x.define("aload", v)
+			x.traceEvent(st, "atomic.Load:"+pc.field, nil, []Term{r})
+			return []Term{r}
 		case strings.HasPrefix(op, "Store"):
 			wr(pc.args[0])
+			x.traceEvent(st, "atomic.Store:"+pc.field, []Term{pc.args[0]}, nil)
 			return nil
 		case strings.HasPrefix(op, "Add"):
 			nv := x.define("aadd", T("(+ "+rd().S+" "+pc.args[0].S+")", SInt))
 			wr(nv)
+			x.traceEvent(st, "atomic.Add:"+pc.field, nil, []Term{nv})
 			return []Term{nv}
 		case strings.HasPrefix(op, "CompareAndSwap"):
 			ok := x.define("cas", Eq(rd(), pc.args[0]))
@@ -257,6 +271,26 @@ func (x *Unit) externalCall(st *State, pc *preparedCall) []Term {
 	nres := pc.sig.Results().Len()
 	resT := func(i int) types.Type { return pc.sig.Results().At(i).Type() }
 	switch full {
+	case "errors.As":
+		// errors.As(err, &target): target receives an arbitrary value of its type when the result is true
+		ok := x.freshVal("errorsAs", SBool, nil)
+		if u, isU := ast.Unparen(pc.call.Args[1]).(*ast.UnaryExpr); isU && u.Op == token.AND {
+			if id, isId := ast.Unparen(u.X).(*ast.Ident); isId {
+				if v, isV := x.info.ObjectOf(id).(*types.Var); isV {
+					nv := x.freshVal(v.Name(), x.U.SortOf(v.Type()), v.Type())
+					if nv.Sort == SInt {
+						x.assume(st, Implies(ok, Not(Eq(nv, T("0", SInt)))))
+						x.regComp("alloc", SInt)
+						x.assume(st, T("(<= "+nv.S+" "+x.get(st, "alloc").S+")", SBool))
+					}
+					cur := x.readVar(st, v)
+					r := Ite(ok, nv, cur)
+					r.Sort, r.GoT = nv.Sort, v.Type()
+					x.writeVar(st, v, r)
+				}
+			}
+		}
+		return []Term{ok}
 	case "fmt.Errorf", "errors.New":
 		r := x.freshVal("err", SIface, resT(0))
 		x.assume(st, Not(x.U.IsNilIface(r)))
@@ -351,4 +385,20 @@ func (x *Unit) externalCall(st *State, pc *preparedCall) []Term {
 	rets := x.freshResults(pc.sig, full)
 	x.traceEvent(st, full, targs, rets)
 	return rets
+}
+
+func (x *Unit) lockInvs(t types.Type, mutex string) []*Clause {
+	var out []*Clause
+	key := recvTypeName(t) + "." + mutex
+	for _, cs := range x.P.Contracts {
+		out = append(out, cs.LockInvs[key]...)
+	}
+	return out
+}
+
+func (x *Unit) tagsOrDefault(tags []string) []string {
+	if len(tags) > 0 {
+		return tags
+	}
+	return []string{"C09"}
 }
